@@ -41,7 +41,7 @@ func makeBoxes(tier string) []*Box {
 	// ---- Box A: every interleaving, tiny budgets (breadth-first, pool = multiset)
 	add(&Box{ID: "A1", Mode: "A", What: "every interleaving of up to two elections and one replication round with one message loss",
 		Cfg: all3, Bud: Budget{MaxTerm: 3, Proposals: 1, Drops: 1},
-		Depth: pick(10, 12), Kinds: kinds(evCampaign, evPropose), Share: pick(10, 60)})
+		Depth: pick(10, 12), Kinds: kinds(evCampaign, evPropose), Share: pick(14, 60)})
 	add(&Box{ID: "A2", Mode: "A", What: "same with PreVote+CheckQuorum: pre-vote rounds, leases and their expiry, quorum checks on leader ticks",
 		Cfg: cfgPVCQ(3, false), Bud: Budget{MaxTerm: 3, Proposals: 1, Drops: 1, Heartbeats: 2, Expires: 2},
 		Depth: pick(9, 10), Kinds: kinds(evCampaign, evPropose, evHeartbeat, evExpire), Share: pick(8, 35)})
